@@ -31,6 +31,10 @@ impl Rng {
     pub fn chance(&mut self, num: usize, den: usize) -> bool {
         self.below(den) < num
     }
+    /// pick among string literals
+    pub fn ps(&mut self, v: &[&'static str]) -> &'static str {
+        v[self.below(v.len())]
+    }
     pub fn pick<'a, T>(&mut self, v: &'a [T]) -> &'a T {
         &v[self.below(v.len())]
     }
